@@ -123,7 +123,13 @@ class CoreProbe:
                 v.append(("I1 frozen key evicted", {"key": k, "where": where}))
             elif id(data[k]) != oid:
                 v.append(("I1 frozen key replaced", {"key": k, "where": where}))
-            elif self.check_frozen_digest and dg is not None and where.startswith("cleanup"):
+            elif self.check_frozen_digest and dg is not None and (
+                    where.startswith("getitem") or
+                    (where.startswith("cleanup") and
+                     (st.counters['cleanups'] < 64 or st.counters['cleanups'] % 32 == 0))):
+                # an alteration is permanent, so sampling the clean-ups of a
+                # thrashing request (10^5 of them) only delays its report to
+                # the end of that top-level request
                 if isinstance(data[k], np.ndarray) and digest(data[k]) != dg:
                     v.append(("I1 frozen key altered", {"key": k, "where": where}))
         extra = set(la) - set(data)
